@@ -8,6 +8,8 @@ OWN_PROPS = {"OWN-git-count-first-parent": "C02", "OWN-git-status-uno": "C02", "
              "OWN-dev-timestamp-local-now": "C14", "OWN-python-wrong-flag": "C18", "OWN-sanitize-keep-double-separator": "C16"}
 log = open("/tmp/wt/confirm_all.log").read() if os.path.exists("/tmp/wt/confirm_all.log") else ""
 for prop in sorted(os.listdir(SRC)):
+    if not os.path.isdir(os.path.join(SRC, prop)):
+        continue
     labels = ("A", "B", "C", "D", "E", "F") if prop != "OWN" else sorted(os.listdir(os.path.join(SRC, prop)))
     for x in labels:
         d = os.path.join(SRC, prop, x)
@@ -22,13 +24,15 @@ for prop in sorted(os.listdir(SRC)):
             if os.path.exists(os.path.join(d, f)):
                 shutil.copy(os.path.join(d, f), os.path.join(out, f))
         notes = open(os.path.join(d, "notes.md")).read() if os.path.exists(os.path.join(d, "notes.md")) else ""
+        area = re.match(r"PROPERTY:\s*(C\d\d)", notes) if prop.startswith("X") else None
         files = re.findall(r"^\+\+\+ b/(\S+)", open(os.path.join(d, "patch.diff")).read(), re.M)
         meta_path = os.path.join(out, "meta.json")
         meta = json.load(open(meta_path)) if os.path.exists(meta_path) else {}
         meta.update(dict(
-            id=sid, property=OWN_PROPS.get(sid, prop), files_changed=files,
+            id=sid, property=area.group(1) if area else OWN_PROPS.get(sid, prop), files_changed=files,
             origin=("change from the design's own list of planned breaks (DESIGN §6), implemented and test-suite-checked by a sub-agent that saw only the change description"
-                    if prop == "OWN" else "independent sub-agent given only the property text and a scratch worktree"),
+                    if prop == "OWN" else "independent sub-agent given the 18 property texts, a scratch worktree and one source area to change (any property)" if prop.startswith("X")
+                    else "independent sub-agent given only the property text and a scratch worktree"),
             needs_to_manifest=notes.strip()[:1500],
             confirmed=dict(
                 how="tools/confirm_mutant.sh in scratch worktree /tmp/wt/base at /repo HEAD: patch applies, `cargo build --offline` ok, "
